@@ -10,7 +10,7 @@ from .. import harness
 SCOPE = {"solve", "named"}
 REL = 1e-8
 N_QUICK = 40
-N_THOROUGH = 800
+N_THOROUGH = 400
 RULE = ("two phases per (tree, method, params, threads, pinned draws): phase 1 runs the implementation with budgets 1..N "
         "(N <= 12 quick, <= 40 thorough) and no threshold to obtain the bound trajectory b_1..b_N; phase 2 runs solve(N, r) for r "
         "placed exactly at, one float above and one float below every b_t, plus {0, -1, NaN, +inf, 2*max b} and compares with "
